@@ -74,6 +74,20 @@ type SChild struct {
 	Back *SParent `json:"back"`
 }
 
+// fields whose Go type is narrower than, or a named version of, the schema's native type (the value is converted into
+// the field on the way in and back on the way out)
+type Ratio float32
+type Count int64
+
+type SNarrow struct {
+	F32 float32  `json:"f32"`
+	PF  *float32 `json:"pf"`
+	R   Ratio    `json:"r"`
+	I32 int32    `json:"i32"`
+	U8  uint8    `json:"u8"`
+	N   Count    `json:"n"`
+}
+
 // a struct whose field holds a map-based object (the sub-tree below it is made of plain maps)
 type SLink struct {
 	Name string         `json:"name"`
@@ -109,7 +123,7 @@ var Shapes = map[string]Shape{}
 func init() {
 	for _, s := range []Shape{shapeOf[SA]("SA"), shapeOf[SP]("SP"), shapeOf[SN]("SN"), shapeOf[SNest]("SNest"),
 		shapeOf[SColl]("SColl"), shapeOf[STag]("STag"), shapeOf[SEmpty]("SEmpty"), shapeOf[SMid]("SMid"), shapeOf[SDeep]("SDeep"),
-		shapeOf[SNode]("SNode"), shapeOf[SParent]("SParent"), shapeOf[SChild]("SChild"), shapeOf[SLink]("SLink")} {
+		shapeOf[SNode]("SNode"), shapeOf[SParent]("SParent"), shapeOf[SChild]("SChild"), shapeOf[SLink]("SLink"), shapeOf[SNarrow]("SNarrow")} {
 		Shapes[s.Name] = s
 		p := s
 		p.Name = s.Name + "*"
@@ -182,6 +196,14 @@ func ShapeSpecs() []*Spec {
 			{Name: "i", Type: leafInt(), EmptyDefault: true, Conflicts: []string{"s"}},
 			{Name: "l", Type: &Spec{Kind: KList, Item: leafStr()}, EmptyDefault: true, Conflicts: []string{"i"}},
 			{Name: "f", Type: leafFloat(), EmptyDefault: true},
+		}},
+		{Kind: KObject, ID: "SNarrow1", Struct: "SNarrow", Props: []Prop{
+			{Name: "f32", Type: &Spec{Kind: KFloat, FMin: F64(-2), FMax: F64(8)}, Required: true},
+			{Name: "pf", Type: leafFloat()},
+			{Name: "r", Type: &Spec{Kind: KFloat, FMin: F64(0), FMax: F64(1)}, Default: Str("0.5")},
+			{Name: "i32", Type: &Spec{Kind: KInt, Min: I64(-5), Max: I64(5)}},
+			{Name: "u8", Type: &Spec{Kind: KInt, Min: I64(0), Max: I64(5)}, Default: Str("3")},
+			{Name: "n", Type: &Spec{Kind: KInt, Min: I64(0)}},
 		}},
 	}
 	return out
